@@ -105,7 +105,7 @@ def is_nontrivial(seq, preset) -> bool:
 
 # ----------------------------------------------------------------- scale family
 SCALE_PRESETS = ((4000, 150, 32), (128, 16, 16), (129, 17, 3), (8, 2, 1), (256, 0, 0))
-SCALE_KINDS = ("names300", "runs", "longstrings")
+SCALE_KINDS = ("names300", "runs", "longstrings", "bulk1100")
 
 
 def scale_seq(kind: str, arity: int) -> list:
@@ -120,6 +120,10 @@ def scale_seq(kind: str, arity: int) -> list:
             o = L(str(i), None, f"http://dt.example/{i % 40}") if i % 3 else I(
                 f"http://p{i % 20}.example/ns#n{(i * 5) % 300}")
             out.append((s, p, o))
+    elif kind == "bulk1100":
+        for i in range(1100):  # beyond internal batch sizes such as 1000
+            out.append((I(f"http://b{i % 7}.example/s{i}"), I(f"http://b{i % 3}.example/p"),
+                        L(str(i))))
     elif kind == "runs":
         for i in range(260):
             s = I(f"http://a/s{i // 5}") if i % 11 else B(f"b{i // 5}")
